@@ -15,6 +15,13 @@ RULE_VERTEX = (
     "range, missing / ill-typed coordinates, non-object queries, stale match keys and up to 4 foreign fields; "
     "one case in three is a SEQUENCE of 2-6 queries processed by ONE plugin instance (same coordinate repeated with / "
     "without destination, interleaved with other coordinates, failures in between), every query judged history-free; "
+    "guard families: query points and network vertices at latitude exactly +-90, longitude exactly +-180 and between "
+    "170 and 180 degrees (valid: the specification accepts [-180,180] x [-90,90] INCLUSIVE) and one f32 ulp outside (with "
+    "a tolerance: model-only, the property is silent); tolerance EXACTLY equal to the distance the real haversine returns "
+    "for the nearest element, its next-up and next-down double, in Meters (explicit and default unit; no conversion), "
+    "judged by S. CONVENTION AT EQUALITY: 'within tolerance always matches' - a distance EQUAL to the tolerance is a "
+    "match (distance <= tolerance), one inclusive rule for BOTH matchers (the vertex matcher used to reject at equality: "
+    "D-VERTEX-TOL-EQ, fixed in /repo 11b8064; theorem c16_tolerance_inclusive); "
     "deterministic boundary families first. Compared: outcome + error class + the whole query after processing "
     "(matched ids; on tie cases the matched squared distance instead of the id). "
     "non-trivial = Ok with >= 2 vertices, or Err InputPluginFailed with >= 1 vertex; distinct by full case")
@@ -27,7 +34,9 @@ RULE_EDGE = (
     "unparseable values) excluding the nearest 0..5 edges, vehicle_parameters making the nearest 1..3 edges "
     "inadmissible (verdict per edge from the real VehicleRestriction::valid), tolerance around the distance of the "
     "nearest ADMISSIBLE edge in every unit, boundary values, high-latitude cases where the nearer-by-degrees excluded "
-    "edge is beyond the tolerance and the admissible one within. Family many_inadmissible_nearer: networks of 70-313 edges in which the 0/8/40/63/64/65/100/300 nearest edges are "
+    "edge is beyond the tolerance and the admissible one within. Guard families (reference points and queries at lat +-90 / lon +-180 / lon beyond 170, one ulp outside) and tolerance "
+    "exactly equal / next-up / next-down of the real distance in Meters as for vertices (distance <= tolerance matches). "
+    " Family many_inadmissible_nearer: networks of 70-313 edges in which the 0/8/40/63/64/65/100/300 nearest edges are "
     "inadmissible (by class, by vehicle height, mixed) and exactly one farther edge is admissible, with and without a "
     "tolerance it satisfies; random crowded networks (70-130 edges, 80-99 % inadmissible). Two cases in five are SEQUENCES of 2-6 queries on ONE plugin instance: the bit-identical coordinate "
     "repeated with different vehicle parameters / road classes / with and without destination, interleaved with other "
